@@ -170,5 +170,5 @@ def _whitened_ref(R):
 
 PARTS = [
     Part("linear", strategy=lambda: gen_linear.linear_problem(), oracle=oracle_linear,
-         nontrivial=nontrivial, n={"quick": 600, "thorough": 40000}),
+         nontrivial=nontrivial, n={"quick": 4000, "thorough": 40000}),
 ]
